@@ -32,6 +32,8 @@ fn gen(rng: &mut Rng, _idx: u64, _tier: Tier) -> Case {
     if rng.chance(0.4) { args.push("--use-update-method".into()); }
     if rng.chance(0.3) { args.push("--relaxed".into()); }
     if rng.chance(0.3) { args.push("--update=-1".into()); args.push("--count-df".into()); }
+    if rng.chance(0.15) { args.push("--downlink-log=/dev/null".into()); }
+    if rng.chance(0.1) { args.push(format!("--log-messages={}", rng.pick(&[17u32, 11, 20]))); }
     let kinds = gen::COMMON_KINDS;
     let mut conns: Vec<Conn> = vec![];
     let chunk = |rng: &mut Rng| *rng.pick(&[Chunking::Line, Chunking::Line, Chunking::Pieces, Chunking::Multi]);
@@ -48,7 +50,7 @@ fn gen(rng: &mut Rng, _idx: u64, _tier: Tier) -> Case {
     let n_faults = if rng.chance(0.1) { rng.range(8, 12) } else { rng.range(0, 5) };
     for _ in 0..n_faults {
         match rng.below(6) {
-            0 | 1 => conns.push(Conn::Refuse { kind: rng.pick(&["ConnectionRefused", "ConnectionRefused", "TimedOut", "HostUnreachable", "NetworkUnreachable", "AddrNotAvailable", "PermissionDenied", "Interrupted", "WouldBlock", "ConnectionReset", "ConnectionAborted", "NotConnected", "InvalidInput", "Other", "NotFound", "AddrInUse", "BrokenPipe", "UnexpectedEof"]).to_string() }),
+            0 | 1 => conns.push(Conn::Refuse { kind: rng.pick(&["ConnectionRefused", "ConnectionRefused", "TimedOut", "HostUnreachable", "NetworkUnreachable", "AddrNotAvailable", "PermissionDenied", "Interrupted", "WouldBlock", "ConnectionReset", "ConnectionAborted", "NotConnected", "InvalidInput", "Other", "NotFound", "AddrInUse", "BrokenPipe", "UnexpectedEof", "LookupFailed", "LookupFailed"]).to_string() }),
             2 => conns.push(Conn::Accept { ops: vec![Op::Eof { dt_us: rng.range(0, 2_000_000) }] }),
             3 => {
                 // accept + frames + close
